@@ -216,8 +216,9 @@ def tie_units(crates, kind):
     out = []
     for c in crates:
         if kind == "core":
-            if os.path.exists(os.path.join(COQ, "Tie", "Tie_%s.v" % c)):
-                out.append((c, "Tie_%s" % c))
+            for f in sorted(os.listdir(os.path.join(COQ, "Tie"))):
+                if re.fullmatch(r"Tie_%s(_\w+)?\.v" % c, f):
+                    out.append((c, f[:-2]))
             out.append((c, "Pins_%s_core" % c))
         else:
             out.append((c, "Pins_%s_aux" % c))
